@@ -162,6 +162,17 @@ def renderRun (isTty : Bool) : RState → List (Bool × Str) → Str → List St
   | st, (sp, f) :: rest, final =>
     (renderStep isTty st sp false f).1 ++ renderRun isTty (renderStep isTty st sp false f).2 rest final
 
+/-- `PrintAggregateAsRows::print` (src/printer.rs:62-66): in the row-oriented modes (logfmt, format)
+an intermediate refresh shows this placeholder instead of a table; since 96fd541 it is a complete
+line (before, it had no `\n`, the reset sequence counted 0 lines and the cursor never returned to
+column 0) -/
+def placeholder : Str := "data will be output once the computation is complete...".toList
+
+def placeholderFrame : Str := placeholder ++ ['\n']
+
+/-- the frames of a run in a row-oriented mode: `k` refreshes, then the final rows -/
+def rowModeFrames (k : Nat) (final : Str) : List Str := List.replicate k placeholderFrame ++ [final]
+
 /-- the screen after the frames have been written to a terminal that was blank with the cursor
 at the top left -/
 def screenAfter (w h : Nat) (frames : List Str) : Option Screen :=
